@@ -160,6 +160,22 @@ def replay(case):
                     out.append(('amuset:num_eigvals', 'num_eigvals=%d returned %r, the first eigenvalues of the full call are %r' % (
                         k, np.round(np.real(evk), 6), np.round(np.real(ev[:k]), 6))))
                     break
+        if not cfg['rev'] and not out:
+            # pure diffusion given in the non-reversible form: a drift array that is identically zero is still "drift given"
+            # (the generator is 1/2 a : hess, not the reversible gradient form unless the data follow the invariant measure)
+            b0 = np.zeros_like(np.array(b))
+            LP0 = np.array([[tg.generator_on_product(bl, t, x[:, l], b0[:, l], sig[:, :, l]) for l in range(m)] for t in tuples])
+            K0 = (LP0 * np.sqrt(ww)[None, :]) @ np.linalg.pinv(Pw, rcond=1e-11)
+            r0 = np.linalg.eigvals(K0)
+            r0 = r0[np.argsort(-np.abs(r0))][:r]
+            M0 = Vh @ (LP0 * np.sqrt(ww)[None, :]).T @ U @ np.diag(1 / sv)
+            ref0 = np.linalg.eigvals(M0)
+            sc0 = max(1.0, float(np.max(np.abs(ref0))))
+            if np.max(np.abs(np.sort(r0.real) - np.sort(ref0.real))) <= 1e-7 * sc0 and np.max(np.abs(ref0.imag)) <= 1e-9 * sc0:
+                ev0 = np.asarray(quiet(tg.amuset_hosvd, x, basis(), sig, return_option='eigenvectors', **dict(kw, b=b0))[0])
+                if ev0.shape != ref0.shape or np.max(np.abs(np.sort(np.real(ev0)) - np.sort(ref0.real))) > 1e-6 * sc0:
+                    out.append(('amuset:nonrev:zero-drift', 'drift array of zeros: eigenvalues %r differ from the dense projected generator '
+                                '1/2 a : hess %r (d=%d m=%d)' % (np.round(np.sort(np.real(ev0)), 6), np.round(np.sort(ref0.real), 6), d, m)))
     except Exception as e:
         out.append(('%s:exception:%s' % (task, type(e).__name__), '%r' % (e,)))
     return out
